@@ -220,13 +220,15 @@ theorem C08_closed_absorbing_step (s : AState) (op : Op) (c : ClosedQuiet s) (ho
       · apply closedQuiet_setW
         apply closedQuiet_handleSpend
         exact closedQuiet_of _ a ha hst hq
-  | spendT pos t h =>
+  | consumeSpend pos =>
     simp only [step]
     split
     · exact c
-    · apply closedQuiet_setW
-      apply closedQuiet_handleSpend
-      exact closedQuiet_of _ a ha hst hq
+    · exact closedQuiet_of _ a ha hst hq
+  | spendH t h =>
+    simp only [step]
+    apply closedQuiet_setW
+    exact closedQuiet_handleSpend s t h c
   | spendDirect k h =>
     simp only [step]
     split
@@ -380,8 +382,12 @@ branch of `HandleAccountSpend` completes the batch before resuming; the funding 
 `SendOutputs` and the recovery clause never reaches `SendOutputs` without `createTx` -/
 theorem C08_I3_call_order :
     Lifecycle.spendAccountCalls = ["signSpendTx", "UpdateAccount", "maybeBroadcastTx"] ∧
-    Lifecycle.handleSpendCases =
-      ["expiry:break", "multisig:PendingBatch;MarkBatchComplete;resumeAccount(false,false,0)", "default:return-error"] := by
+    (Lifecycle.handleSpendCases =
+      ["expiry:break", "multisig:PendingBatch;MarkBatchComplete;resumeAccount(false,false,0)", "default:return-error"] ∨
+     -- with the other accounts of a batch committed by a spend re-armed (fix of C08/complete-without-rewatch)
+     Lifecycle.handleSpendCases =
+      ["expiry:break", "multisig:PendingBatch;MarkBatchComplete;WatchMatchedAccounts;resumeAccount(false,false,0)",
+       "default:return-error"]) := by
   decide
 
 /-- a closure appends exactly: the write of the pending-closed record carrying the closing transaction,
